@@ -343,7 +343,24 @@ pub struct Spec {
 
 static KUBECONFIG_LOCK: Mutex<()> = Mutex::new(());
 
-async fn wait_for<F: Fn(&[passage_adapters::Target]) -> bool>(adapter: &AgonesDiscoveryAdapter, pred: F, max: Duration) -> Option<Vec<passage_adapters::Target>> {
+/// the adapter under test: built directly (a page size of two needs that), or the way the application builds it
+/// from its configuration
+enum Subject {
+    Direct(AgonesDiscoveryAdapter),
+    FromConfig(passage::adapter::discovery::DynDiscoveryAdapter),
+}
+
+impl Subject {
+    async fn discover(&self) -> passage_adapters::Result<Vec<passage_adapters::Target>> {
+        use passage_adapters::discovery::DiscoveryAdapter;
+        match self {
+            Subject::Direct(a) => a.discover().await,
+            Subject::FromConfig(a) => a.discover().await,
+        }
+    }
+}
+
+async fn wait_for<F: Fn(&[passage_adapters::Target]) -> bool>(adapter: &Subject, pred: F, max: Duration) -> Option<Vec<passage_adapters::Target>> {
     let t0 = Instant::now();
     loop {
         let snap = adapter.discover().await.unwrap_or_default();
@@ -377,7 +394,16 @@ fn run_history(spec: &Spec, counters: &(AtomicU64, AtomicU64)) -> Vec<(String, S
             std::fs::write(&path, cfg).expect("kubeconfig");
             unsafe { std::env::set_var("KUBECONFIG", &path) };
             let wc = if spec.paged { WatchConfig::default().page_size(2) } else { WatchConfig::default() };
-            let a = AgonesDiscoveryAdapter::new(None, wc).await;
+            // unpaged histories alternate between the two ways of building the adapter
+            let via_config = !spec.paged && spec.history.len() % 2 == 1;
+            let a = if via_config {
+                passage::adapter::discovery::DynDiscoveryAdapter::from_config(passage::config::DiscoveryAdapter::Agones(passage::config::AgonesDiscovery { namespace: None, label_selector: None, field_selector: None }))
+                    .await
+                    .map(Subject::FromConfig)
+                    .map_err(|e| e.to_string())
+            } else {
+                AgonesDiscoveryAdapter::new(None, wc).await.map(Subject::Direct).map_err(|e| e.to_string())
+            };
             let _ = std::fs::remove_file(&path);
             match a {
                 Ok(a) => a,
